@@ -59,7 +59,7 @@ const (
 	KBool    = "bool"
 	KStrList = "strlist"
 	KDelete  = "delete"
-	KSync    = "sync" // explicit sync value; only generated together with disable_sync (how callers use it)
+	KSync    = "sync" // explicit sync value; parts random/shapes/edges generate it only together with disable_sync (how callers use it), part syncs next to an enabled injection
 	KNone    = "none" // no oneof arm set: always invalid, only in hostile scenarios
 
 	DConst = "const" // no distribution: constant update
